@@ -331,7 +331,14 @@ func sharedOp(s *jsonapi.Schema, op string, p int) {
 		first, err := jsonapi.MarshalDocument(&jsonapi.Document{Data: col}, uc)
 		must(err)
 		kept := string(first)
-		_, err = jsonapi.MarshalDocument(&jsonapi.Document{Data: col}, uc)
+		other := &jsonapi.Resources{}
+		for k := 0; k < 2; k++ {
+			rk := t1.New()
+			rk.Set("id", fmt.Sprintf("other-%d", k))
+			rk.Set("a", "somebody else's")
+			other.Add(rk)
+		}
+		_, err = jsonapi.MarshalDocument(&jsonapi.Document{Data: other}, uc)
 		must(err)
 		if string(first) != kept || strings.Count(kept, "own-"+id) != 3 || !json.Valid(first) {
 			panic("the payload of a collection changed after it was returned, or holds another request's members")
